@@ -14,7 +14,7 @@ func init() {
 func runC14(r *oblig.Report) {
 	r.Explanation = "Decides necessary conditions of C14 on the DSL printer: (1) output order never comes from a map — every map range reachable from TransformJSONProtoToDSL / TransformJSONStringToDSL is collect-then-sort " +
 		"with a comparator that is total on the collected names (its only zero-returning path compares the names themselves), or another order-insensitive form; no later unstable re-sort with a partial comparator; " +
-		"(2) the include-source-information option is only ever forwarded, as an argument, into the trailing-comment helper; with the option false the helper returns the empty string on every path; " +
+		"(1b) on every path that sorts the type definitions (modular models) the types rendered afterwards are the elements of that sorted list; (2) the include-source-information option is only ever forwarded, as an argument, into the trailing-comment helper; with the option false the helper returns the empty string on every path; " +
 		"its non-empty result starts with \" #\" on one line and every use of it is the last verb on its output line of a constant format; (3) no package-level state is written."
 	r.NotCovered = []string{"byte identity across JSON encodings (delegated to protojson producing equal messages)", "that names cannot contain line breaks",
 		"that the comparator implements exactly the documented (unattributed first, module, file, name) order — only its totality and determinism are decided"}
@@ -39,6 +39,8 @@ func runC14(r *oblig.Report) {
 	e5path.OptionFlow(c.P, r, "R5.7", "transformOptions", "includeSourceInformation", helper, fs)
 	e5path.HelperFalse(c.P, r, "R5.7", helper, "includeSourceInformation")
 	e5path.LastOnLine(c.P, r, "R5.7", helper, fs)
+	r.Rule("C14.2", "path-enumeration", "on every path that sorts the type definitions (modular models), the types rendered afterwards are the elements of the sorted list itself", 1)
+	e5path.SortedListIsRendered(c.P, r, "C14.2")
 	r.Analysed["order_source_loops"] = len(a.Loops)
 	e3order.SelfTest(r)
 }
